@@ -33,3 +33,8 @@ func decodeQueryFields(t schema.Type, doc string) (reflect.Value, error) {
 }
 
 func buildQuery(f restlicodec.MapWriter) (string, error) { return restlicodec.BuildQueryParams(f) }
+
+// requiredFieldsOf builds the required-field set a hand-written ReadRecord call passes.
+func requiredFieldsOf(names ...string) *restlicodec.RequiredFields {
+	return restlicodec.NewRequiredFields().Add(names...)
+}
